@@ -183,6 +183,14 @@ def main(argv=None):
                    source=r.get("span"), solver=dict(status=ob["status"], backend=ob["backend"], model=ob.get("model"),
                                                      smt2_tail=ob.get("smt2")), tree=str(SRC_ROOT))
         reproduced = None
+        lem = contract.LEMMAS.get(r["contract"][6:]) if r["contract"].startswith("lemma:") else None
+        if lem is not None and hasattr(lem, "concrete_run"):
+            try:
+                res = lem.concrete_run(ob["name"], ob.get("model"))
+                rec["inputs"], rec["native"] = ob.get("model"), res
+                reproduced = bool(res and res.get("violated"))
+            except Exception:
+                rec["replay_error"] = traceback.format_exc()
         if c is not None:
             try:
                 case = c.cases()[r["case_index"]]
@@ -311,9 +319,13 @@ def do_replay_file(pid, path):
                 return 1 if res.get("violated") else 0
         print("unknown bounded check")
         return 3
-    c = contract.REGISTRY[rec["contract"]]
-    case = c.cases()[rec["case_index"]]
-    res = c.concrete_run(case, rec.get("inputs"))
+    if rec["contract"].startswith("lemma:"):
+        importlib.import_module(f"props.{pid}")
+        res = contract.LEMMAS[rec["contract"][6:]].concrete_run(rec["obligation_name"], rec.get("inputs"))
+    else:
+        c = contract.REGISTRY[rec["contract"]]
+        case = c.cases()[rec["case_index"]]
+        res = c.concrete_run(case, rec.get("inputs"))
     print(json.dumps(res, indent=1, default=str))
     if res and res.get("violated"):
         print(f"VIOLATION property={pid} replay={path}")
